@@ -110,6 +110,13 @@ func scenarios(indexed bool) []*eng.Scenario {
 				{{K: "dropIndex", Coll: "a", Field: "y"}, {K: "createIndex", Coll: "a", Field: "y"}},
 				{{K: "dropColl", Coll: "a"}},
 			}},
+		{Name: "S17-reader-vs-two-commits-on-its-page" + suffix, Setup: with(ins("a", append(paddedDocs(12, 300), doc(u1, "x", int64(1), "pad", strings.Repeat("q", 300)))...)),
+			Threads: [][]m.Op{
+				// both inserted ids sort before everything stored: the leaf page is rewritten twice while the reader is
+				// between the end of its transaction and its return
+				{ins("a", doc(eng.ID(1), "x", int64(4), "pad", strings.Repeat("r", 300))), ins("a", doc(eng.ID(2), "x", int64(5), "pad", strings.Repeat("s", 300)))},
+				{{K: "findById", Coll: "a", Id: u1}, {K: "findAll", Q: qOn("a", x(1))}},
+			}},
 		{Name: "S8-drop-index-vs-indexed-update" + suffix, Setup: with(ins("a", doc(u1, "x", int64(1)), doc(u2, "x", int64(2)))),
 			Threads: [][]m.Op{
 				{{K: "dropIndex", Coll: "a", Field: "x"}},
@@ -189,7 +196,7 @@ func init() {
 		if only == "" {
 			runRaceBinary(run, tier)
 		} // first: cheap, and a data race explains most of what the exploration would then stumble over
-		nScen := 16
+		nScen := 17
 		for _, indexed := range []bool{false, true} {
 			for i, sc := range scenarios(indexed) {
 				if i >= nScen || !strings.HasPrefix(sc.Name, only) {
